@@ -6,7 +6,7 @@ from harness import graphs as G
 from harness import strategies as S
 from harness.core import Acc, Violation, lib, must, must_raise
 from harness.hyp import job_seed, run_property, scaled
-from props.gcommon import DTYPE_NAMES, compare_sets, lib_debug, pdag_codes, result_set, signed_copy, to_np
+from props.gcommon import DTYPE_NAMES, chain_variant, compare_sets, lib_debug, pdag_codes, result_set, signed_copy, to_np
 
 PROP = "C07"
 RULE = ("all_dags on every PDAG with acyclic directed part (p<=4 quick, p<=5 thorough: 765,664), mec (both check_chain "
@@ -89,6 +89,9 @@ def check(case):
                 kw = {}
             elif var == "weighted":
                 A = signed_copy(D, case.get("salt", 0))
+                kw = {}
+            elif var in ("near_one", "tiny_extras", "tiny_extras_w"):
+                A = chain_variant(D, var[:11] if var.startswith("tiny") else var, case.get("salt", 0) * 2 + (var == "tiny_extras_w"))
                 kw = {}
             elif var == "scaled":          # same pattern, weights 2 (chain pattern but not "the" chain matrix)
                 A = 2.0 * to_np(D, float)
@@ -222,7 +225,7 @@ def _run_ice_pairs(acc, job):
 def _run_chain(acc, job):
     for p in job["ps"]:
         chain = tuple((1 << (i + 1)) if i < p - 1 else 0 for i in range(p))
-        variants = ["int", "float", "scaled", "weighted"] + (["nochain"] if p <= job["p_nochain"] else [])
+        variants = ["int", "float", "scaled", "weighted", "near_one"] + (["nochain"] if p <= job["p_nochain"] else [])
         case = {"sub": "mec_chain", "A": G.lists_from_rows(chain), "variants": variants, "salt": p}
         # reversed chain and a relabelled chain (general path, chain skeleton)
         rev = G.transpose(chain)
@@ -242,7 +245,13 @@ def _run_chain(acc, job):
             rows = list(chain)
             for (i, j) in extras:
                 rows[i] |= 1 << j
-            cases.append({"sub": "mec_chain", "A": G.lists_from_rows(tuple(rows)), "variants": ["chain_plus_cancelling", "float"], "extra": extras, "salt": p})
+            cases.append({"sub": "mec_chain", "A": G.lists_from_rows(tuple(rows)), "variants": ["chain_plus_cancelling", "float", "tiny_extras", "tiny_extras_w"], "extra": extras, "salt": p})
+        if 3 <= p <= 8:
+            # the chain plus ONE far edge 0 -> p-1 (or 0 -> 2) whose weight is below every tolerance
+            for far in ({2, p - 1} if p >= 3 else set()):
+                rows = list(chain)
+                rows[0] |= 1 << far
+                cases.append({"sub": "mec_chain", "A": G.lists_from_rows(tuple(rows)), "variants": ["tiny_extras", "tiny_extras_w", "int"], "salt": p + far})
         for c in cases:
             try:
                 lab = check(c)
@@ -268,6 +277,9 @@ def _mec_case(draw):
         for (i, j) in es[10:]:
             small[i][j] = 0
         A = draw(S.embedded(small))
+    if draw(st.integers(0, 4)) == 0:
+        # three or four small DAGs side by side: the class is the product of the components' classes
+        A = draw(S.disjoint_union(S.dag_pattern(2, 3, shapes=("random", "chain", "collider", "complete")), 3, 4))
     var = draw(st.sampled_from([["int"], ["float"], ["weighted"], ["nochain"], ["uint8"], ["bool"]]))
     return {"sub": "mec_hyp", "A": A, "variants": var, "salt": draw(st.integers(0, 7))}
 
@@ -278,6 +290,8 @@ def _alldags_case(draw):
         P = draw(S.pdag(6, 8, max_undirected=9, weights=(4, 2, 2)))
     else:      # a small, denser PDAG relabelled into 9..12 nodes (label-dependent code paths)
         P = draw(S.embedded(draw(S.pdag(3, 6, max_undirected=8, weights=(2, 3, 3)))))
+    if draw(st.integers(0, 4)) == 0:
+        P = draw(S.disjoint_union(S.pdag(2, 3, weights=(1, 2, 4)), 3, 4))     # several components, most with undirected edges
     return {"sub": "alldags_hyp", "P": P, "dtype": draw(st.sampled_from(DTYPE_NAMES)), "ice": draw(st.integers(0, 9)) == 0}
 
 
